@@ -28,10 +28,20 @@
 (* report it again.                                                        *)
 (*   SAcquire(g,s) SMark(g) SReport(g) SFailAfter(g) AggWrite              *)
 (*                                                                         *)
+(* Schedules: with rps-per-instance every instance gets its OWN schedule   *)
+(* object from the pool's NewRPSSchedule factory (sched[i], assigned in    *)
+(* newInstance); a composite schedule's nested parts are created by the    *)
+(* config decode of that product, so they belong to that instance too.     *)
+(* left[s] = tokens the object still hands out (the profile has ProfileK); *)
+(* an instance shoots once per token it draws from ITS schedule.  Without  *)
+(* rps-per-instance there is one shared object by design.                  *)
+(*                                                                         *)
 (* Negative controls (all FALSE for the real design):                      *)
 (*   ShareGun    the factory hands out one gun object to every instance    *)
 (*   InPlace     rendered values are stored in the shared definition       *)
 (*   NoRandLock  the shared random source is entered without its lock      *)
+(*   ShareNested the factory's products wrap the SAME nested schedule      *)
+(*               objects (config decoded once for all products)            *)
 (*   ReportEarly the gun reports the sample BEFORE the part of the step    *)
 (*               that can still fail and, on failure, marks the sample and *)
 (*               reports it again (write after hand-over, double release)  *)
@@ -41,7 +51,11 @@ EXTENDS Integers, Sequences, FiniteSets, TLC
 CONSTANTS Insts, Guns, Toks, MaxShots, KeepLog, ShareGun, InPlace, NoRandLock,
           Samples,      \* sample objects of the shared pool ({} = samples not modelled)
           WithRand,     \* model the shared random source
-          ReportEarly
+          ReportEarly,
+          Scheds,       \* schedule objects ({} = schedules not modelled)
+          ProfileK,     \* tokens of the configured profile
+          PerInstance,  \* rps-per-instance
+          ShareNested
 
 VARIABLES pend,     \* set of <<creator, gun>>: product of the factory not yet bound
           made,     \* guns the factory produced
@@ -63,10 +77,14 @@ VARIABLES pend,     \* set of <<creator, gun>>: product of the factory not yet b
           lines,    \* log of written lines [handed, written] (KeepLog)
           hs,       \* gun -> sample of its current step ("nil" = none)
           sph,      \* gun -> step phase w.r.t. its sample: none | acq | sent
-          stale     \* gun -> sample it already reported but still references (ReportEarly only)
+          stale,    \* gun -> sample it already reported but still references (ReportEarly only)
+          sched,    \* instance -> its schedule object (positive integers; 0 before newInstance)
+          left,     \* schedule object -> tokens left
+          took      \* instance -> tokens it drew = shots it fired
 
 svars == <<holders, inPool, sval, aggq, lines, hs, sph, stale>>
-vars == <<pend, made, owners, busy, nShoot, shooter, cur, used, defs, view, inCrit, sent, shots, svars>>
+schvars == <<sched, left, took>>
+vars == <<pend, made, owners, busy, nShoot, shooter, cur, used, defs, view, inCrit, sent, shots, svars, schvars>>
 
 Init ==
     /\ pend = {} /\ made = {}
@@ -88,6 +106,9 @@ Init ==
     /\ hs = [g \in Guns |-> "nil"]
     /\ sph = [g \in Guns |-> "none"]
     /\ stale = [g \in Guns |-> "nil"]
+    /\ sched = [i \in Insts |-> 0]
+    /\ left = [s \in Scheds |-> ProfileK]
+    /\ took = [i \in Insts |-> 0]
 
 \* the registered factory builds a NEW gun for every call (ShareGun: a singleton)
 NewGun(c, g) ==
@@ -95,25 +116,38 @@ NewGun(c, g) ==
     /\ \A p \in pend : p[1] # c
     /\ made' = made \cup {g}
     /\ pend' = pend \cup {<<c, g>>}
-    /\ UNCHANGED <<owners, busy, nShoot, shooter, cur, used, defs, view, inCrit, sent, shots, svars>>
+    /\ UNCHANGED <<owners, busy, nShoot, shooter, cur, used, defs, view, inCrit, sent, shots, svars, schvars>>
 
 Bind(c, i, g) ==
     /\ <<c, g>> \in pend
     /\ \A h \in Guns : i \notin owners[h]             \* newInstance(id) is called once per id
     /\ owners' = [owners EXCEPT ![g] = @ \cup {i}]
     /\ pend' = pend \ {<<c, g>>}
-    /\ UNCHANGED <<made, busy, nShoot, shooter, cur, used, defs, view, inCrit, sent, shots, svars>>
+    \* newInstance: sched := newSchedule().  Shared rps: the pool's one object.  rps-per-instance: a new product
+    \* of the factory -- an object (with its own nested parts) nobody else has; ShareNested: every product
+    \* wraps the nested objects of the first one, i.e. it IS the same token source.
+    /\ IF Scheds = {} THEN sched' = sched
+       ELSE \E s \in Scheds :
+              /\ IF PerInstance /\ ~ShareNested THEN \A j \in Insts : sched[j] # s
+                 ELSE s = CHOOSE x \in Scheds : \A y \in Scheds : x <= y
+              /\ sched' = [sched EXCEPT ![i] = s]
+    /\ UNCHANGED <<made, busy, nShoot, shooter, cur, used, defs, view, inCrit, sent, shots, svars, left, took>>
 
 \* the instance goroutine (sequential) hands an acquired ammo to ITS gun
 ShootBegin(i, g, gid, t) ==
     /\ i \in owners[g] /\ ~busy[i]
+    \* one shot per token the instance draws from ITS schedule
+    /\ IF Scheds = {} THEN UNCHANGED <<left, took>>
+       ELSE /\ left[sched[i]] > 0
+            /\ left' = [left EXCEPT ![sched[i]] = @ - 1]
+            /\ took' = [took EXCEPT ![i] = @ + 1]
     /\ busy' = [busy EXCEPT ![i] = TRUE]
     /\ nShoot' = [nShoot EXCEPT ![g] = @ + 1]
     /\ shooter' = [shooter EXCEPT ![g] = @ \cup {gid}]
     /\ cur' = [cur EXCEPT ![g] = t]
     /\ used' = IF t = "" THEN used ELSE used \cup {t}
     /\ shots' = shots + 1
-    /\ UNCHANGED <<pend, made, owners, defs, view, inCrit, sent, svars>>
+    /\ UNCHANGED <<pend, made, owners, defs, view, inCrit, sent, svars, sched>>
 
 \* scenario step: the preprocessor draws this call's variables (source[next] under the iterator lock)
 Draw(g, t) ==
@@ -121,7 +155,7 @@ Draw(g, t) ==
     /\ Samples = {} \/ sph[g] = "acq"
     /\ cur' = [cur EXCEPT ![g] = t]
     /\ used' = used \cup {t}
-    /\ UNCHANGED <<pend, made, owners, busy, nShoot, shooter, defs, view, inCrit, sent, shots, svars>>
+    /\ UNCHANGED <<pend, made, owners, busy, nShoot, shooter, defs, view, inCrit, sent, shots, svars, schvars>>
 
 \* rand / randString: the shared *rand.Rand
 RandEnter(g) ==
@@ -129,11 +163,11 @@ RandEnter(g) ==
     /\ nShoot[g] > 0 /\ g \notin inCrit
     /\ NoRandLock \/ inCrit = {}
     /\ inCrit' = inCrit \cup {g}
-    /\ UNCHANGED <<pend, made, owners, busy, nShoot, shooter, cur, used, defs, view, sent, shots, svars>>
+    /\ UNCHANGED <<pend, made, owners, busy, nShoot, shooter, cur, used, defs, view, sent, shots, svars, schvars>>
 RandExit(g) ==
     /\ g \in inCrit
     /\ inCrit' = inCrit \ {g}
-    /\ UNCHANGED <<pend, made, owners, busy, nShoot, shooter, cur, used, defs, view, sent, shots, svars>>
+    /\ UNCHANGED <<pend, made, owners, busy, nShoot, shooter, cur, used, defs, view, sent, shots, svars, schvars>>
 
 \* the call leaves gun g with token p in the payload and m in the templated header / metadata
 Send(g, p, m, nd, nv, scenario) ==
@@ -142,7 +176,7 @@ Send(g, p, m, nd, nv, scenario) ==
     /\ defs' = nd /\ view' = nv
     /\ cur' = [cur EXCEPT ![g] = IF scenario THEN "" ELSE @]      \* the next step draws again
     /\ sph' = IF Samples = {} THEN sph ELSE [sph EXCEPT ![g] = "sent"]
-    /\ UNCHANGED <<pend, made, owners, busy, nShoot, shooter, used, inCrit, shots, holders, inPool, sval, aggq, lines, hs, stale>>
+    /\ UNCHANGED <<pend, made, owners, busy, nShoot, shooter, used, inCrit, shots, holders, inPool, sval, aggq, lines, hs, stale, schvars>>
 
 ShootEnd(i, g) ==
     /\ i \in owners[g] /\ busy[i] /\ nShoot[g] > 0 /\ g \notin inCrit
@@ -150,10 +184,10 @@ ShootEnd(i, g) ==
     /\ busy' = [busy EXCEPT ![i] = FALSE]
     /\ nShoot' = [nShoot EXCEPT ![g] = @ - 1]
     /\ cur' = [cur EXCEPT ![g] = "-"]
-    /\ UNCHANGED <<pend, made, owners, shooter, used, defs, view, inCrit, sent, shots, svars>>
+    /\ UNCHANGED <<pend, made, owners, shooter, used, defs, view, inCrit, sent, shots, svars, schvars>>
 
 (****************************** samples ************************************)
-core == <<pend, made, owners, busy, nShoot, shooter, cur, used, defs, view, inCrit, sent, shots>>
+core == <<pend, made, owners, busy, nShoot, shooter, cur, used, defs, view, inCrit, sent, shots, schvars>>
 
 \* netsample.Acquire at the start of a step: any sample the pool has
 SAcquire(g, s) ==
@@ -235,6 +269,10 @@ ValueIsolation == \A r \in sent : r.p = r.cur /\ r.m = r.cur
 FreshValues == \A r, q \in sent : r # q => (r.m # q.m \/ (r.gun = q.gun /\ r.cur = q.cur))
 \* shared definitions are never altered
 SharedUnaltered == defs = "T"
+\* rps-per-instance: a schedule object (and its nested parts) belongs to exactly one instance
+SchedOneOwner == PerInstance => \A i, j \in Insts : i # j /\ sched[i] # 0 => sched[i] # sched[j]
+\* ... so that every instance shoots the FULL profile: when its schedule is drained it drew all ProfileK tokens
+FullProfile == PerInstance => \A i \in Insts : (sched[i] # 0 /\ left[sched[i]] = 0) => took[i] = ProfileK
 \* a sample has ONE owner: the gun from Acquire until Report, the aggregator afterwards
 SampleOneHolder == \A s \in Samples : Cardinality(holders[s]) <= 1
 \* it is released into the pool once, and nobody holds a released sample
